@@ -77,6 +77,30 @@ class _Subst(ast.NodeTransformer):
     def visit_Lambda(self, node):
         return node
 
+    def _comp(self, node):
+        # comprehension variables shadow the environment (the first iterable is evaluated outside)
+        bound = set()
+        for g in node.generators:
+            for t in ast.walk(g.target):
+                if isinstance(t, ast.Name):
+                    bound.add(t.id)
+        if not (bound & set(self.env)):
+            return self.generic_visit(node)
+        inner = _Subst({k: v for k, v in self.env.items() if k not in bound}, self.depth, self.recursive)
+        first = True
+        for g in node.generators:
+            g.iter = (self if first else inner).visit(g.iter)
+            first = False
+            g.ifs = [inner.visit(i) for i in g.ifs]
+        if isinstance(node, ast.DictComp):
+            node.key = inner.visit(node.key)
+            node.value = inner.visit(node.value)
+        else:
+            node.elt = inner.visit(node.elt)
+        return node
+
+    visit_ListComp = visit_SetComp = visit_GeneratorExp = visit_DictComp = _comp
+
 
 def substitute(node, env: Dict[str, ast.AST], recursive=True):
     """recursive=True: env values are raw right-hand sides (single-assignment locals);
@@ -116,10 +140,78 @@ def _formula(node):
         return parts[0] if len(parts) == 1 else ('and', parts)
     if isinstance(node, ast.Call) and isinstance(node.func, ast.Name) and node.func.id == 'bool' and len(node.args) == 1:
         return _formula(node.args[0])
+    if isinstance(node, ast.Call) and isinstance(node.func, ast.Name) and node.func.id in ('any', 'all') and len(node.args) == 1 \
+            and not node.keywords and isinstance(node.args[0], (ast.GeneratorExp, ast.ListComp)) and len(node.args[0].generators) == 1:
+        return _quantifier(node.func.id, node.args[0])
+    if isinstance(node, ast.Call) and isinstance(node.func, ast.Name) and node.func.id == 'len' and len(node.args) == 1 and not node.keywords:
+        return ('atom', f'nonempty({ast.unparse(node.args[0])})')
+    if isinstance(node, ast.IfExp):
+        c, a, b = _formula(node.test), _formula(node.body), _formula(node.orelse)
+        return ('or', [('and', [c, a]), ('and', [('not', c), b])])
     return ('atom', ast.unparse(node))
 
 
+def canonical(f) -> str:
+    """A canonical text of a formula: its atoms in sorted order and its truth table."""
+    ats = sorted(atoms_of(f))
+    if len(ats) > 10:
+        return show(f)
+    bits = ''.join('1' if evaluate(f, dict(zip(ats, v))) else '0' for v in itertools.product([False, True], repeat=len(ats)))
+    if len(ats) == 1 and bits == '01':
+        return ats[0]
+    if len(ats) == 1 and bits == '10':
+        return f'not {ats[0]}'
+    return f'TT[{" | ".join(ats)} : {bits}]'
+
+
+def _quantifier(kind, gen):
+    """any(P for v in it [if C]) is ONE atom whose key carries the canonical form of (C and P); all(P for ... if C) is
+    `not any(C and not P ...)`.  The bound variable is renamed positionally."""
+    g = gen.generators[0]
+    ren = {}
+    for i, t in enumerate(n for n in ast.walk(g.target) if isinstance(n, ast.Name)):
+        ren[t.id] = f'_v{i}'
+
+    class R(ast.NodeTransformer):
+        def visit_Name(self, n):
+            if n.id in ren:
+                return ast.copy_location(ast.Name(id=ren[n.id], ctx=n.ctx), n)
+            return n
+    elt = R().visit(clone(gen.elt))
+    ifs = [R().visit(clone(i)) for i in g.ifs]
+    p = _formula(elt)
+    if kind == 'all':
+        p = ('not', p)
+    body = conj([_formula(i) for i in ifs] + [p])
+    a = ('atom', f'any({canonical(body)} for {ast.unparse(R().visit(clone(g.target)))} in {ast.unparse(g.iter)})')
+    return ('not', a) if kind == 'all' else a
+
+
+def _is_len(n):
+    return isinstance(n, ast.Call) and isinstance(n.func, ast.Name) and n.func.id == 'len' and len(n.args) == 1 and not n.keywords
+
+
+def _is_int(n, v):
+    return isinstance(n, ast.Constant) and type(n.value) is int and n.value == v
+
+
 def _cmp_atom(l, op, r):
+    # len(x) compared with 0 / 1: one atom `nonempty(x)` (a length is never negative)
+    if _is_len(r) and not _is_len(l):
+        flip = {ast.Lt: ast.Gt, ast.Gt: ast.Lt, ast.LtE: ast.GtE, ast.GtE: ast.LtE}
+        l, r, op = r, l, flip.get(type(op), type(op))()
+    if _is_len(l):
+        a = ('atom', f'nonempty({ast.unparse(l.args[0])})')
+        t = type(op)
+        if (t in (ast.Gt, ast.NotEq) and _is_int(r, 0)) or (t is ast.GtE and _is_int(r, 1)):
+            return a
+        if (t in (ast.Eq, ast.LtE) and _is_int(r, 0)) or (t is ast.Lt and _is_int(r, 1)):
+            return ('not', a)
+    # membership in a literal collection of constants: a disjunction of equalities
+    if isinstance(op, (ast.In, ast.NotIn)) and isinstance(r, (ast.Tuple, ast.List, ast.Set)) and 0 < len(r.elts) <= 8 \
+            and all(isinstance(e, ast.Constant) for e in r.elts):
+        d = ('or', [_cmp_atom(l, ast.Eq(), e) for e in sorted(r.elts, key=lambda e: repr(e.value))])
+        return ('not', d) if isinstance(op, ast.NotIn) else d
     ls, rs = ast.unparse(l), ast.unparse(r)
     neg = False
     if isinstance(op, ast.IsNot):
